@@ -118,6 +118,11 @@ func streamCorpus() []CFrame {
 	add("bad.connect.cut", unhex("100700044d51545405"), 1)
 	add("bad.unsubscribe.cutfilter", unhex("a2050001000009"), 10)
 	add("type0.body", unhex("0003010203"), 0)
+	// larger opaque bodies of the reserved type, and of the pings (which
+	// take any body)
+	add("type0.body600", reframe(0x00, gen.Content('U', 600)), 0)
+	add("type0.body5000", reframe(0x00, gen.Content('U', 5000)), 0)
+	add("pingreq.body600", reframe(0xc0, gen.Content('U', 600)), 12)
 	add("pingreq.nonminimal-rl", unhex("c08000"), 12)
 	// non-minimal and over-long remaining-length fields around real bodies
 	// (whether they are accepted is the decoder's business; the stream-level
@@ -191,7 +196,12 @@ func streamCorpus() []CFrame {
 func minedBigFrames() []CFrame {
 	var out []CFrame
 	for _, n := range Mined.NovelLens {
-		if n < 1024 || n > 4<<20+1 || len(out) >= 24 {
+		if n >= 16 && n <= 4<<20+1 && len(out) < 36 {
+			// a reserved-type frame whose body has exactly n bytes (the body of
+			// type 0 is opaque: a decoder may read it by another path)
+			out = append(out, CFrame{Name: fmt.Sprintf("type0.body=%d", n), B: reframe(0x00, gen.Content('U', n)), Type: 0})
+		}
+		if n < 128 || n > 4<<20+1 || len(out) >= 36 {
 			continue
 		}
 		// payload of exactly n bytes
